@@ -175,7 +175,8 @@ def run_case(case):
                 os.unlink(real)
                 os.symlink('does-not-exist', real)
         before = cli.snapshot(root)
-        rc, out, err = cli.run_cli(list(flags) + ['--in-place'] + list(args), root, monitor=True, env_extra=env_extra)
+        foreign = case.get('python')      # another interpreter runs the tool: no open-log, and the bytes it writes are that interpreter's business
+        rc, out, err = cli.run_cli(list(flags) + ['--in-place'] + list(args), root, monitor=not foreign, env_extra=env_extra, python=foreign)
         after = cli.snapshot(root)
         opened_w = []
         if os.path.exists(log):
@@ -215,6 +216,11 @@ def run_case(case):
                     expected_fail = v
                     break
             state[key] = ('f', want)
+        if foreign:
+            # visited files that did not fail may hold whatever that interpreter's minifier produces; everything else is still decided
+            for v in visited:
+                if v != expected_fail and realrel(v) in after:
+                    state[realrel(v)] = after[realrel(v)]
         # 1. post-state equals the model
         for k in sorted(set(state) | set(after)):
             if state.get(k) != after.get(k):
@@ -291,16 +297,40 @@ def main(tier, seed):
             slim['entries'] = c['entries']
         run.add(slim, r)
     pool.run_cases(gen_cases(tier, seed), 'vf.props.C15:run_case', timeout=120, batch=2, on_result=on, deadline=run.deadline)
+    # fault plans again with the tool running in other interpreters (which exception a broken file raises differs from version to version)
+    fcases = [c for c in gen_cases(tier, seed + 7) if c.get('fault') and c['fault']['kind'] in BAD]
+    interp = dict(common.interpreters())
+    xcases = []
+    for i, c in enumerate(fcases[:(60 if tier == 'quick' else 900)]):
+        version = ['3.6.15', '3.8.18', '3.10.13', '3.13.0', '3.7.16', '3.9.18', '3.11.7'][i % 7]       # not 2.7: mixed indentation and non-UTF-8 str literals are valid there
+        if version in interp:
+            d = dict(c)
+            d['python'] = interp[version]
+            d['interpreter'] = version
+            d['flags'] = []
+            xcases.append(d)
+
+    def on_x(c, r):
+        slim = {'args': c['args'], 'flags': c['flags'], 'fault': c['fault'], 'interpreter': c['interpreter'], 'python': c['python']}
+        if r.get('status') == 'violation' or 'inconclusive' in r:
+            slim['entries'] = c['entries']
+            for v in r.get('violations') or []:
+                v['detail'] = '[tool running in %s] %s' % (c['interpreter'], v.get('detail'))
+        if r.get('status') in ('held', 'violation'):
+            run.count('cross_interpreter_fault_runs')
+            run.cell('cross_interpreter_fault_runs', c['interpreter'])
+        run.add(slim, r)
+    pool.run_cases(xcases, 'vf.props.C15:run_case', timeout=120, batch=2, on_result=on_x, deadline=run.deadline)
     return run.finish(
         rule='random directory trees (nested dirs, .py/.pyw and look-alike suffixes, empty / BOM / cookie / CRLF files, file and directory '
              'symlinks inside and outside the argument, directories named like modules) x path-argument lists (dirs, files, duplicates, '
              'overlaps) x flag sets x fault plans (unparseable, undecodable, unknown cookie, bad indentation, NUL byte, read fault and write '
-             'fault injected at open(), dangling link) at a random position in visit order; non-trivial/distinct = distinct (tree, arguments, '
+             'fault injected at open(), dangling link) at a random position in visit order; the file-content fault plans again with the tool running in 3.6 - 3.13; non-trivial/distinct = distinct (tree, arguments, '
              'fault) runs whose post-state was compared with the sequential model',
         assumptions=['faults are injected at open() (failpoint in the harness sitecustomize); a crash in the middle of the final write() is not covered',
                      'explicitly named files are targets whatever their suffix'],
         level='fault_enumeration', min_nontrivial=40,
-        required_counters=['cli_runs', 'files_rewritten', 'opens_for_writing_logged', 'runs_with_fault_observed'])
+        required_counters=['cli_runs', 'files_rewritten', 'opens_for_writing_logged', 'runs_with_fault_observed', 'cross_interpreter_fault_runs'])
 
 
 def replay(path):
